@@ -984,6 +984,16 @@ func (in *Interp) slice(act *activation, x *ssa.Slice) {
 	}
 	lo, hi := in.val(act, x.Low), in.val(act, x.High)
 	full := (x.Low == nil || (lo != nil && lo.K != nil && constant.Sign(lo.K) == 0)) && x.High == nil
+	if !full && (x.Low == nil || (lo != nil && lo.K != nil && constant.Sign(lo.K) == 0)) && hi != nil && hi.K != nil && x.Max == nil {
+		// arr[:N] of an array of exactly N elements (what make([]T, N) with a constant N lowers to) is the whole array
+		if pt, ok := x.X.Type().Underlying().(*types.Pointer); ok {
+			if at, ok := pt.Elem().Underlying().(*types.Array); ok {
+				if n, exact := constant.Int64Val(hi.K); exact && n == at.Len() {
+					full = true
+				}
+			}
+		}
+	}
 	if full {
 		if a.Cell != nil && a.CSel == "" && a.Cell.find().LenVal == nil {
 			if pt, ok := x.X.Type().Underlying().(*types.Pointer); ok {
